@@ -37,6 +37,8 @@ func copyfProps(pkgRel, typ string) []string {
 		props = append(props, "C14")
 	case pkgRel == "ring" && strings.Contains(typ, "ampler"), pkgRel == "ring/ringqp" && strings.Contains(typ, "ampler"):
 		props = append(props, "C17")
+	case pkgRel == "ring" && (typ == "BasisExtender" || typ == "Decomposer"):
+		props = append(props, "C02")
 	case pkgRel == "core/rgsw" || pkgRel == "core/rgsw/blindrot":
 		props = append(props, "C20")
 	case (pkgRel == "schemes/bgv" || pkgRel == "schemes/ckks") && typ == "Encoder":
@@ -366,7 +368,7 @@ func init() {
 	core.Register(&core.Rule{
 		Name:  "COPYF",
 		Doc:   "every field of T is carried by each copy constructor (ShallowCopy/WithKey/WithPRNG/AtLevel/CopyNew/Clone/WithParams) of T on every return, unless no code in the module reads the field",
-		Props: []string{"C10", "C18", "C16", "C14", "C17", "C20", "C07"},
+		Props: []string{"C10", "C18", "C16", "C14", "C17", "C20", "C07", "C02"},
 		Run: func(c *core.Ctx) []ob {
 			out := scanCopyF(c)
 			out = append(out, core.Floor("COPYF", []string{"C10"}, "copy constructors", c.Stats["copyf_constructors"], 40)...)
